@@ -308,6 +308,8 @@ def gen_update_args(rng, opts=None):
                 a["fields"] = {"static": {rng.choice(FIELD_KEYS + ["n", "xy", "", "x y", "x,y"]): rng.choice(FIELD_VALS + [2.0000000001, 1.0000000000000002]) for _ in range(n)}}
             else:
                 a["fields"] = {"call": rng.choice(["fields_inc_x", "fields_only_new", "fields_empty", "fields_same", "fields_none_y", "fields_inplace_set", "fields_inplace_clear", "fields_nudge_x", "fields_scale_x"])}
+                if rng.random() < 0.15:
+                    a["reentrant"] = True  # the callable also reads from the database (index-served answers)
         if rng.random() < 0.25:
             ks = rng.sample(TAG_KEYS + ["n", "kj", "f", "k j", "k,j"], rng.choice([1, 1, 2]))  # a key is a literal, blanks and commas included
             a["unset_tags"] = ks[0] if len(ks) == 1 and rng.random() < 0.5 else ks
